@@ -476,6 +476,38 @@ def count_inversions_long(perm):
     return ok(0 < want < n * (n - 1) // 2)
 
 
+_FRESH_PRIME = r"""
+import json, sys
+sys.path.insert(0, sys.argv[1])
+from permuta.misc.math import is_prime
+order = json.loads(sys.argv[2])
+print(json.dumps([bool(is_prime(n)) for n in order]))
+"""
+
+
+@check("C11.is_prime.fresh")
+def is_prime_fresh(item):
+    """is_prime in a FRESH interpreter, asked in an order chosen by the caller (large numbers first, jumps): the
+    answer must not depend on which numbers were asked before (helpers that grow a table on demand)"""
+    import json
+    import subprocess
+    import sys
+
+    from vlib import repo as _repo
+
+    label, order = item
+    order = list(order)
+    out = subprocess.run([sys.executable, "-c", _FRESH_PRIME, _repo.REPO, json.dumps(order)], capture_output=True, text=True, timeout=120)
+    if out.returncode != 0:
+        return bad("a list of booleans", f"exit {out.returncode}: {out.stderr[-300:]}", f"is_prime over {label} in a fresh interpreter")
+    got = json.loads(out.stdout.strip().splitlines()[-1])
+    want = [n >= 2 and all(n % d for d in range(2, int(n ** 0.5) + 1)) for n in order]
+    if got != want:
+        k = next(i for i in range(len(order)) if got[i] != want[i])
+        return bad(want[k], got[k], f"is_prime({order[k]}) as query number {k} of the order '{label}' in a fresh interpreter")
+    return ok(True)
+
+
 @check("C11.is_prime")
 def is_prime_block(item):
     """permuta.misc.math.is_prime on the integers lo..hi-1 against a sieve (hi <= 10^6+1)
@@ -1173,6 +1205,15 @@ def run(ctx):
             blocks.append((base - 300, base + 300))
     ctx.run("C11.is_prime", blocks, chunk=4,
             rule=f"is_prime on every integer in -2000..{top} vs a sieve; non-trivial = block contains a prime")
+
+    squares = [p * p for p in (5, 7, 11, 13, 17, 19, 23, 29, 31, 37, 41, 97, 101)] + [5 * 7, 7 * 11, 11 * 13, 13 * 17, 25 * 7, 49 * 11]
+    orders = [("descending squares", sorted(squares, reverse=True) + list(range(60, -3, -1))),
+              ("one big jump", [10007, 10403, 9409, 25, 35, 49, 121, 4, 9, 2, 3]),
+              ("doubling then back", [3, 7, 15, 31, 63, 127, 255, 511, 1023, 2047, 529, 361, 289, 169, 121, 77, 49, 25]),
+              ("seeded", [rng.randrange(-5, 20000) for _ in range(200)])]
+    ctx.run("C11.is_prime.fresh", orders, chunk=1,
+            rule="is_prime in a fresh interpreter over four query orders (squares of primes in descending order, one big jump, doubling "
+                 "then back, seeded) vs trial division")
 
     # ---- the table: the entry named N computes N
     ctx.run("C11.table.registry", [None], chunk=1,
